@@ -191,6 +191,8 @@ def run(M, rep, tier, only=None):
         else:
             rep.ok(R3, key)
 
+    _r6(M, rep, ctx)
+
     # ---- R5 ---------------------------------------------------------------------------------------
     u = M.modules.get("nixio.util.util")
     t2s = u.funcs.get("time_to_str") if u else None
@@ -223,3 +225,49 @@ def run(M, rep, tier, only=None):
                       "str_to_time does not count from 1970-01-01 UTC", site=s2t.file, what="UTC both ways, epoch 1970")
         else:
             raise AnalysisError("C19.R5: cannot classify the time conversion idiom of time_to_str")
+
+
+def _r6(M, rep, ctx):
+    """C19.R6 -- force_created_at / force_updated_at store the time they are given: the written value may ignore the
+    `time` argument only on a path where that argument was decided to be None *by identity* (0 = 1970-01-01 is a
+    legal whole second and is falsy)."""
+    from nixsa.values import vparams
+    R6 = rep.rule("C19.R6", "a forced timestamp is stored as given unless it is None (by identity)", floor=4,
+                  technique="value dependency of the stamp write vs the None-decision on all abstract paths")
+    nctx = Ctx(M, coarse=False)
+    nctx.cfg.compose = False
+    for cn in ("Entity", "File"):
+        for name, key in (("force_created_at", "created_at"), ("force_updated_at", "updated_at")):
+            f = nctx.member(cn, name)
+            ident = "%s.%s" % (cn, name)
+            if f is None:
+                rep.bad(R6, ident, "required mechanism not found")
+                continue
+            pname = [p for p in f.params[1:]][:1]
+            if not pname:
+                rep.bad(R6, ident, "required mechanism not found: no time parameter")
+                continue
+            pname = pname[0]
+            bad = None
+            ngiven = 0
+            for p in nctx.paths(f, cn):
+                if not p.normal:
+                    continue
+                ws = [e for e in p.events if ctx.fx.is_write(e) and ctx.fx.key(e) == key]
+                if not ws:
+                    bad = (p, "a normal path does not write %s" % key)
+                    break
+                w = ws[-1]
+                val = w.kw.get("value") or (w.args[1] if len(w.args) > 1 else None)
+                dep = val is not None and pname in vparams(val) and any(
+                    x == ("param", pname) for x in subterms(val.t))
+                none_dec = [v for a, v in p.decisions if a == ("isnone", ("param", pname))]
+                if dep:
+                    ngiven += 1
+                    continue
+                if not (none_dec and none_dec[0] is True):
+                    bad = (p, "the stored %s ignores the given time although it was not decided to be None "
+                           "(a falsy time such as 0 is replaced by the current time)" % key)
+                    break
+            rep.check(R6, ident, bad is None and ngiven > 0, bad[1] if bad else "no path stores the given time",
+                      site=f.file + ":%d" % f.node.lineno, detail=describe_path(bad[0]) if bad else None)
